@@ -1231,7 +1231,8 @@ func (ev *evaluator) runFrame(fr *evalFrame, start *ssa.BasicBlock, stop func(b 
 				return nil, "panic"
 			}
 			if !ok || !isB {
-				ev.setFail("branch condition not evaluable in " + fname(fr.fn) + ": " + last.Cond.String())
+				detail := ev.whyNot(fr, last.Cond, 0)
+				ev.setFail("branch condition not evaluable in " + fname(fr.fn) + ": " + last.Cond.String() + detail)
 				return nil, "fail"
 			}
 			next := b.Succs[1]
@@ -1693,6 +1694,21 @@ func (ev *evaluator) runCountedFrame(fr0 *evalFrame, maxIter int) ([]interface{}
 		}
 	}
 	return nil, "fail"
+}
+
+// whyNot: the innermost operands of v that cannot be evaluated (for the text of a "not followed" report).
+func (ev *evaluator) whyNot(fr *evalFrame, v ssa.Value, depth int) string {
+	if _, ok := ev.eval(fr, v, 0); ok || depth > 4 {
+		return ""
+	}
+	out := ""
+	if bo, isBin := v.(*ssa.BinOp); isBin {
+		out = ev.whyNot(fr, bo.X, depth+1) + ev.whyNot(fr, bo.Y, depth+1)
+	}
+	if out == "" {
+		out = " [" + v.Name() + " = " + v.String() + " is not evaluable]"
+	}
+	return out
 }
 
 // runCallee reads an inlined library callee: loop-free ones by the walker, and (when ev.counted is set)
